@@ -399,7 +399,7 @@ static Verdict c05_pair(const Case& c) {
   if (singular) { Verdict S = Verdict::skip("singular-within-one-ulp"); return S; }
   const double kappa = k2 + kc * (1.0 + k1);
   double worst = 0; int wq = 0;
-  for (int q = 0; q < na; q++) { const double e = (double)(std::fabs(a2[q] - a[q]) / ulp_at(nt, scale_of(q))); if (e > worst) { worst = e; wq = q; } }
+  for (int q = 0; q < na; q++) { const double e = (double)(std::fabs(a2[q] - a[q]) / ulp_at(nt, scale_of(q))); if (!(e <= worst)) { worst = e; wq = q; } }
   const double tol = 4.0 * (1.0 + kappa);
   if (!(worst <= tol))
     return Verdict::fail(fmt("%s then %s [%s] does not return the original %s: component %d is %s instead of %s (%.4g ulp; allowed 4(1+kappa) = %.4g with measured conditioning kappa = k2 + kc(1+k1) = %.3g + %.3g(1+%.3g)); operands %s, intermediate %s",
@@ -579,7 +579,7 @@ static Verdict c11_angle(const Case& c) {
   if (th < 0 || (Q)th > pi + (Q)ulp_at(nt, 3)) return Verdict::fail(fmt("%s [%s] = %s is outside [0, pi] for %s", R->name, ntinfo(nt).name, decld(th).c_str(), args().c_str()));
   const Q ref = angle_ref(E.st[0], E.st[1], n);
   const Q tol = 6 * sqrtq((Q)eps_of(nt));
-  if (fabsq((Q)th - ref) > tol) return Verdict::fail(fmt("%s [%s] = %s but atan2(|a x b|, a.b) = %s (difference %s, allowed 6 sqrt(eps) = %s) for %s", R->name, ntinfo(nt).name, decld(th).c_str(), qstr(ref).c_str(), qstr((Q)th - ref).c_str(), qstr(tol).c_str(), args().c_str()));
+  if (!(fabsq((Q)th - ref) <= tol)) return Verdict::fail(fmt("%s [%s] = %s but atan2(|a x b|, a.b) = %s (difference %s, allowed 6 sqrt(eps) = %s) for %s", R->name, ntinfo(nt).name, decld(th).c_str(), qstr(ref).c_str(), qstr((Q)th - ref).c_str(), qstr(tol).c_str(), args().c_str()));
   // symmetric in its arguments (same-kind arguments: bit for bit)
   if (!std::strcmp(R->args[0].name, R->args[1].name)) {
     Eval F; for (int i = 0; i < n; i++) { F.in[0][i] = E.in[1][i]; F.in[1][i] = E.in[0][i]; } F.run(R);
